@@ -34,6 +34,7 @@ type Result struct {
 	Diverged    bool     // replay met a different situation than recorded: nondeterminism not owned
 	DivergeInfo string
 	Picks       int // selects with several ready cases resolved by the scheduler
+	WrongBranch bool // the Go runtime took another ready case than asked for: the execution is to be discarded and repeated
 	Racy        int // evaluations of an awaited select with more than one ready case (Go picks at random)
 	RacyAt      int // number of prefix points honoured before a racy divergence (-1: none)
 	Panics      []string
@@ -440,6 +441,17 @@ func hookPick(site string, n int) int {
 		return x.choose(site, n)
 	}
 	return 0
+}
+
+// hookWrongBranch: the select took another ready case than the schedule asked for. The execution runs on
+// (nothing is torn down half-way) but takes default choices from here and is discarded by the explorer.
+func hookWrongBranch(site string) {
+	if x := current; x != nil && !x.finished {
+		x.res.WrongBranch = true
+		if n := len(x.res.Points); n < len(x.prefix) {
+			x.prefix = x.prefix[:n]
+		}
+	}
 }
 
 func hookRacy(site string) {
